@@ -37,9 +37,28 @@ func (mc *Machine) checkNoDuplicateKeys(t *rapid.T) {
 func TestC12(t *testing.T) {
 	rapid.Check(t, func(t *rapid.T) {
 		sch := genSchema(t, SchemaCfg{Key: 2, MinCols: 1, MaxCols: 3, Kinds: []Kind{KInt, KString, KBool, KUint16, KEnum}, Capacities: []int{1, 64, 1024, 16385}})
-		mc := NewMachine("C12", sch, column.Options{})
+		slog := &recLogger{}
+		mc := NewMachine("C12", sch, column.Options{Writer: slog})
 		defer mc.Close()
 		defer mc.Guard(t)
+		if rapid.IntRange(0, 7).Draw(t, "start-after-failed-restore") == 0 {
+			mc.ActFailedRestore(t)
+		}
+		// a stream follower: key lookups must behave like a map there as well
+		follower := newCollection(sch, column.Options{})
+		defer follower.Close()
+		fed := 0
+		follow := func(t *rapid.T, what string) {
+			for _, rc := range slog.Since(fed) {
+				cl := rc.Clone.Clone()
+				cl.ID = rc.ID
+				if err := follower.Replay(cl); err != nil {
+					mc.fail(t, "Replay of commit #%d on the stream follower: %v", rc.Seq, err)
+				}
+				fed++
+			}
+			mc.CheckDerived(t, follower, "collection that replays the change stream ("+what+")", false)
+		}
 		cfg := TxnCfg{Prop: "C12", MaxSteps: 8, Peeks: true, Rollback: true, FailInsert: true, Deletes: true, Inserts: true, Merges: true, KeyOps: true, Direct: true,
 			NoStoreOnDel: KFActive("f11-store-and-delete-same-txn"), NoOpAfterLenMerge: KFActive("f15-difflen-merge-reorder")}
 		freed := map[string]bool{} // keys that were deleted or re-keyed away at some point
@@ -79,6 +98,9 @@ func TestC12(t *testing.T) {
 			}
 			mc.CheckKeys(t)
 			mc.checkNoDuplicateKeys(t)
+			if len(mc.M.Rows) <= 300 && rapid.IntRange(0, 3).Draw(t, "check-follower") == 0 {
+				follow(t, "intermediate point")
+			}
 		}
 		t.Repeat(map[string]func(*rapid.T){
 			"txn":  step,
@@ -117,6 +139,7 @@ func TestC12(t *testing.T) {
 		mc.CheckFull(t, false)
 		mc.CheckKeys(t)
 		mc.checkNoDuplicateKeys(t)
+		follow(t, "at the end")
 		RecordCase("C12", mc.Desc(), interesting, mc.Labels()...)
 	})
 }
